@@ -1,13 +1,15 @@
-"""Executed by /venv/bin/python: concolic provenance tracing through the REAL world / orbit / tides classes.
+"""Executed by /venv/bin/python: concolic provenance tracing through the REAL world / orbit / tides / layer / rheology classes.
 
 Leaf numeric functions are wrapped at their import sites: the wrapper calls the real function on the concrete values and attaches the uninterpreted term
-f(arg terms). Setter inputs are tagged floats ('in', name); a float subclass carries terms through inline arithmetic. For each history the derived
-quantities of the world after the history and of a freshly built world put directly into the final state are reported as (value, term).
-stdin: JSON {"world": "cpl"|"ctl", "histories": [[op, ...], ...]} ; op = {"via": "world"|"orbit", "kw": {state_name: tag}} ; stdout: @@RESULT@@ json"""
-import sys, json, itertools, warnings, math
+f(arg terms). Setter inputs are tagged floats ('in', name); a float subclass carries terms through inline arithmetic (array runs: provenance by object identity only,
+because the classes test `type(x) == np.ndarray`; inline array arithmetic degrades to content-hashed constants). For each history the derived quantities of the world after the history, of a freshly built world put directly into the final state, and of
+the functional pipeline (the same leaf functions called directly on the final state) are reported as (value, term).
+stdin: JSON {"world": kind, "histories": [[op, ...], ...]} ; op = {"via": "world"|"orbit"|"layer"|"tides", "kw": {state_name: tag}} ; stdout: @@RESULT@@ json"""
+import sys, json, itertools, warnings, math, hashlib, logging
 warnings.filterwarnings('ignore')
 import numpy as np
 import TidalPy
+logging.disable(logging.CRITICAL)
 from TidalPy.structures import build_world, build_from_world
 from TidalPy.structures.orbit import PhysicsOrbit
 import TidalPy.tides.methods.base as tbase
@@ -16,9 +18,10 @@ import TidalPy.structures.orbit.base as obase
 import TidalPy.structures.orbit.physics as ophys
 import TidalPy.structures.world_types.tidal as wtid
 import TidalPy.structures.world_types.basic as wbas
+import TidalPy.rheology.complex_compliance.complex_compliance as rcc
+import TidalPy.rheology.partial_melt.partialmelt as rpm
 
 PROV, KEEP = {}, []
-OPQ = itertools.count()
 
 
 class TF(float):
@@ -28,6 +31,8 @@ class TF(float):
         return o
 
     def _bin(self, other, sym, f, rev=False):
+        if isinstance(other, np.ndarray):
+            return NotImplemented
         try:
             ov = float(other)
         except (TypeError, ValueError):
@@ -74,21 +79,25 @@ def term_of(x):
         return ['c', repr(bool(x))]
     if isinstance(x, (int, float, np.floating, np.integer)):
         return ['c', repr(float(x))]
-    if isinstance(x, (complex, str, type(None))):
+    if isinstance(x, (complex, np.complexfloating)):
+        return ['c', repr(complex(x))]
+    if isinstance(x, (str, type(None))):
         return ['c', repr(x)]
-    if isinstance(x, np.ndarray) and x.ndim == 0:
-        return ['c', repr(float(x))]
+    if isinstance(x, np.ndarray):
+        if x.ndim == 0 and x.dtype.kind == 'f':
+            return ['c', repr(float(x))]
+        return ['c', 'ndarray:' + hashlib.sha256(np.ascontiguousarray(x).tobytes()).hexdigest()[:20]]
     if isinstance(x, dict):
         return ['dict', [[repr(k), term_of(v)] for k, v in x.items()]]
     if isinstance(x, (tuple, list)):
         return ['tup', [term_of(v) for v in x]]
     if callable(x):
         return ['fn', getattr(x, '__name__', type(x).__name__)]
-    return ['opaque', type(x).__name__, next(OPQ)]
+    return ['c', 'object:' + type(x).__name__]
 
 
 def wrap_out(v, term):
-    if isinstance(v, (float, np.floating)) or (isinstance(v, np.ndarray) and v.ndim == 0):
+    if isinstance(v, (float, np.floating)) or (isinstance(v, np.ndarray) and v.ndim == 0 and v.dtype.kind == 'f'):
         return TF(float(v), term)
     if isinstance(v, tuple):
         t = TT(wrap_out(x, ['proj', i, term]) for i, x in enumerate(v))
@@ -104,7 +113,15 @@ def wrap_out(v, term):
 
 
 def plain(x):
-    return float(x) if isinstance(x, TF) else x
+    if isinstance(x, TF):
+        return float(x)
+    if isinstance(x, TT) or type(x) is tuple:
+        return tuple(plain(v) for v in x)
+    if type(x) is list:
+        return [plain(v) for v in x]
+    if isinstance(x, TD):
+        return {k: plain(v) for k, v in x.items()}
+    return x
 
 
 def traced(name, f):
@@ -112,6 +129,7 @@ def traced(name, f):
         term = ['app', name, [term_of(x) for x in a], [[kk, term_of(v)] for kk, v in sorted(k.items())]]
         return wrap_out(f(*[plain(x) for x in a], **{kk: plain(v) for kk, v in k.items()}), term)
     g.__name__ = name
+    g.__wrapped__ = f
     return g
 
 
@@ -132,28 +150,116 @@ for m in (obase, wtid, wbas, ophys):
     for nm in ('rads2days', 'days2rads', 'orbital_motion2semi_a', 'semi_a2orbital_motion', 'semia_eccen_derivatives', 'semia_eccen_derivatives_dual', 'spin_rate_derivative'):
         if hasattr(m, nm):
             setattr(m, nm, traced(nm, getattr(m, nm)))
+rcc.compliance_dict_helper = traced('compliance_dict', rcc.compliance_dict_helper)
+for nm in ('calculate_melt_fraction', 'calculate_melt_fraction_array'):
+    if hasattr(rpm, nm):
+        setattr(rpm, nm, traced(nm, getattr(rpm, nm)))
 
 spec = json.load(sys.stdin)
+KIND = spec.get('world', 'cpl')
+ARRAYS = bool(spec.get('arrays', False))
 star = build_world('55cnc')
-base_world = build_world('earth_simple')
-use_ctl = spec.get('world') == 'ctl'
-cfg = {'force_spin_sync': False, 'type': 'simple_tidal', 'mass': 5.972e24, 'slices': 100,
-       'tides': {'model': 'global_approx', 'fixed_q': 125.0, 'use_ctl': use_ctl, 'eccentricity_truncation_lvl': 2, 'max_tidal_order_l': 2, 'obliquity_tides_on': bool(spec.get('obliquity', False))}}
+LAYERED = KIND.startswith('layered')
+OBLIQ = KIND in ('cpl_obl', 'ctl_obl', 'layered')
+if LAYERED:
+    base_world = build_world('io_simple')
+    cfg = {'force_spin_sync': KIND == 'layered_sync', 'type': 'layered',
+           'tides': {'model': 'layered', 'eccentricity_truncation_lvl': 2, 'max_tidal_order_l': 2, 'obliquity_tides_on': True},
+           'layers': {'Core': {'is_tidal': False, 'rheology': {'complex_compliance': {'model': 'maxwell'}}}, 'Mantle': {'is_tidal': True}}}
+else:
+    base_world = build_world('earth_simple')
+    cfg = {'force_spin_sync': KIND.endswith('_sync'), 'type': 'simple_tidal', 'mass': 5.972e24, 'slices': 100,
+           'tides': {'model': 'global_approx', 'fixed_q': 125.0, 'use_ctl': KIND.startswith('ctl'), 'eccentricity_truncation_lvl': 2, 'max_tidal_order_l': 2, 'obliquity_tides_on': OBLIQ}}
+SYNC = bool(cfg['force_spin_sync'])
 
 VAL = {'orbital_period': lambda k: 50.0 + 7.0 * k, 'eccentricity': lambda k: 0.05 + 0.03 * k, 'spin_period': lambda k: 10.0 + 3.0 * k, 'obliquity': lambda k: 0.1 + 0.04 * k,
        'semi_major_axis': lambda k: 3.0e10 * (1 + 0.21 * k), 'orbital_frequency': lambda k: 2 * math.pi / (86400. * (41.0 + 5.0 * k)), 'spin_frequency': lambda k: 2 * math.pi / (86400. * (9.0 + 2.0 * k)),
-       'time': lambda k: 100.0 + 50 * k}
+       'time': lambda k: 100.0 + 50 * k, 'temperature': lambda k: 1450.0 + 130.0 * k, 'fixed_q': lambda k: 80.0 + 21.0 * k, 'fixed_dt': lambda k: 100.0 + 31.0 * k}
 GROUP = {'orbital_period': 'orbit_sep', 'semi_major_axis': 'orbit_sep', 'orbital_frequency': 'orbit_sep', 'spin_period': 'spin', 'spin_frequency': 'spin'}
+ORBIT_KEYS = ('eccentricity', 'semi_major_axis', 'orbital_frequency', 'orbital_period')
+WORLD_KEYS = ORBIT_KEYS + ('spin_period', 'spin_frequency', 'obliquity', 'time')
 
 
 def tagged(name, k):
-    return TF(VAL[name](k), ['in', '%s#%d' % (name, k)])
+    v = VAL[name](k)
+    term = ['in', '%s#%d' % (name, k)]
+    if ARRAYS and name not in ('fixed_q', 'fixed_dt'):
+        arr = v * np.array([1.0, 1.1, 1.25])
+        PROV[id(arr)] = term
+        KEEP.append(arr)
+        return arr
+    return TF(v, term)
+
+
+def wrap_models(w):
+    if not LAYERED:
+        return
+    for layer in w:
+        rh = getattr(layer, 'rheology', None)
+        if rh is None:
+            continue
+        for mn in ('viscosity_model', 'liquid_viscosity_model', 'partial_melting_model'):
+            model = getattr(rh, mn, None)
+            if model is None:
+                continue
+            for fn in ('func', 'func_array'):
+                f = getattr(model, fn, None)
+                if f is not None and not hasattr(f, '__wrapped__'):
+                    try:
+                        setattr(model, fn, traced('%s.%s.%s' % (layer.name, mn, fn.replace('_array', '')), f))
+                    except Exception:
+                        try:
+                            setattr(model, '_' + fn, traced('%s.%s.%s' % (layer.name, mn, fn.replace('_array', '')), f))
+                        except Exception:
+                            pass
 
 
 def fresh_pair():
     w = build_from_world(base_world, new_config=cfg)
     o = PhysicsOrbit(star, tidal_host=star, tidal_bodies=w)
+    wrap_models(w)
     return w, o
+
+
+def apply_op(w, o, via, kw):
+    if via == 'world':
+        w.set_state(**kw)
+    elif via == 'orbit':
+        okw = {nm: v for nm, v in kw.items() if nm in ORBIT_KEYS}
+        wkw = {nm: v for nm, v in kw.items() if nm not in okw}
+        if okw:
+            o.set_state(w, **okw)
+        if wkw:
+            w.set_state(**wkw)
+    elif via == 'setter':
+        for nm, v in kw.items():
+            setattr(w, nm, v)
+    elif via == 'layer':
+        w.mantle.set_state(temperature=kw['temperature'])
+    elif via == 'layer_setter':
+        w.mantle.temperature = kw['temperature']
+    elif via == 'orbit_time':
+        o.time = kw['time']
+    elif via == 'tides':
+        if 'fixed_q' in kw:
+            w.set_fixed_q(kw['fixed_q'])
+        if 'fixed_dt' in kw:
+            w.set_fixed_dt(kw['fixed_dt'])
+    else:
+        raise ValueError(via)
+
+
+def jval(v):
+    if v is None:
+        return None
+    if isinstance(v, (complex, np.complexfloating)):
+        return [float(v.real), float(v.imag)]
+    a = np.asarray(v)
+    if a.dtype.kind == 'c':
+        return [float(x) for x in np.concatenate([a.real.ravel(), a.imag.ravel()])]
+    if a.dtype.kind in 'fiub':
+        return [float(x) for x in a.ravel()] if a.ndim else float(a)
+    return None
 
 
 def observe(w, o):
@@ -168,10 +274,7 @@ def observe(w, o):
         if v is None:
             out[nm] = {'value': None, 'term': ['c', 'None']}
             return
-        try:
-            out[nm] = {'value': float(v), 'term': term_of(v)}
-        except (TypeError, ValueError):
-            out[nm] = {'value': None, 'term': term_of(v)}
+        out[nm] = {'value': jval(v), 'term': term_of(v)}
     put('tidal_heating_global', lambda: w.tidal_heating_global)
     put('dUdM', lambda: w.dUdM)
     put('dUdw', lambda: w.dUdw)
@@ -181,15 +284,80 @@ def observe(w, o):
     put('orbital_period', lambda: w.orbital_period)
     put('semi_major_axis', lambda: w.semi_major_axis)
     put('spin_frequency', lambda: w.spin_frequency)
+    put('spin_period', lambda: w.spin_period)
     put('obliquity', lambda: w.obliquity)
+    put('time', lambda: w.time)
     put('tidal_susceptibility', lambda: w.tides.tidal_susceptibility)
+    put('unique_tidal_frequencies', lambda: w.tides.unique_tidal_frequencies)
+    put('tidal_terms_by_frequency', lambda: w.tides.tidal_terms_by_frequency)
+    put('global_love_l2', lambda: w.global_love_by_orderl[2])
+    put('global_negative_imk_l2', lambda: w.global_negative_imk_by_orderl[2])
+    put('effective_q_l2', lambda: w.effective_q_by_orderl[2])
+    put('spin_derivative', lambda: w.calc_spin_derivative())
     put('orbit.eccentricity', lambda: o.get_eccentricity(w))
     put('orbit.semi_major_axis', lambda: o.get_semi_major_axis(w))
     put('orbit.orbital_frequency', lambda: o.get_orbital_frequency(w))
     put('orbit.orbital_period', lambda: o.get_orbital_period(w))
     put('orbit.de_dt', lambda: o.get_eccentricity_time_derivative(w))
     put('orbit.da_dt', lambda: o.get_semi_major_axis_time_derivative(w))
+    put('orbit.dn_dt', lambda: o.get_orbital_motion_time_derivative(w))
+    if LAYERED:
+        put('mantle.tidal_heating', lambda: w.mantle.tidal_heating)
+        put('mantle.viscosity', lambda: w.mantle.viscosity)
+        put('mantle.shear_modulus', lambda: w.mantle.shear_modulus)
+        put('mantle.melt_fraction', lambda: w.mantle.melt_fraction)
+        put('mantle.complex_compliances', lambda: w.mantle.rheology.complex_compliances)
+        put('mantle.temperature', lambda: w.mantle.temperature)
+        put('mantle.radiogenic_heating', lambda: w.mantle.radiogenics.heating)
+        put('core.surface_temperature', lambda: w.core.surface_temperature)
+    else:
+        put('fixed_q', lambda: w.fixed_q)
     return out
+
+
+def functional(w, final):
+    """the functional pipeline: the same leaf functions called directly on the final state (static world constants read from the world)"""
+    out = {}
+    try:
+        t = w.tides
+        ct, cm, ef, inf = tbase.find_mode_manipulators(t.max_tidal_order_lvl, t.eccentricity_truncation_lvl, t.use_obliquity_tides)
+        host_m, m = star.mass, w.mass
+        nm, v = final['orbit_sep']
+        if nm == 'orbital_period':
+            n = obase.days2rads(v)
+            a = obase.orbital_motion2semi_a(n, host_m, m)
+        elif nm == 'orbital_frequency':
+            n = v
+            a = obase.orbital_motion2semi_a(n, host_m, m)
+        else:
+            a = v
+            n = obase.semi_a2orbital_motion(a, host_m, m)
+        if SYNC:
+            spin = n
+        else:
+            snm, sv = final['spin']
+            spin = wbas.days2rads(sv) if snm == 'spin_period' else sv
+        e = final['eccentricity'][1]
+        ecc_res = ef(e)
+        obl = final['obliquity'][1] if (t.use_obliquity_tides and 'obliquity' in final) else 0.0
+        obl_res = inf(obl)
+        uf, terms = ct(spin, n, a, w.radius, ecc_res, obl_res, t.multiply_modes_by_sign)
+        sus = tbase.calc_tidal_susceptibility(host_m, w.radius, a)
+        out['tidal_susceptibility'] = sus
+        out['unique_tidal_frequencies'] = uf
+        out['tidal_terms_by_frequency'] = terms
+        if not LAYERED:
+            if t.use_ctl:
+                love = tga.ctl_neg_imk_helper_func(uf, t.fixed_k2, t.ctl_calc_method, t.ctl_calc_input_getter())
+            else:
+                q = final['fixed_q'][1] if 'fixed_q' in final else t.fixed_q
+                love = tga.cpl_neg_imk_helper_func(uf, t.fixed_k2, q)
+            tidal_scale, radius, bulk_density, gravity_surf = t.tidal_inputs
+            res = cm(gravity_surf, radius, bulk_density, 1., tidal_scale, host_m, sus, love, terms, t.max_tidal_order_lvl, cpl_ctl_method=True)
+            out['tidal_heating_global'], out['dUdM'], out['dUdw'], out['dUdO'] = res[0], res[1], res[2], res[3]
+    except Exception as ex:
+        out['_error'] = repr(ex)[:300]
+    return {k: ({'value': jval(v), 'term': term_of(v)} if k != '_error' else {'error': v}) for k, v in out.items()}
 
 
 results = []
@@ -197,31 +365,37 @@ for hist in spec['histories']:
     try:
         w, o = fresh_pair()
         final = {}
-        init = {'orbital_period': tagged('orbital_period', 0), 'eccentricity': tagged('eccentricity', 0), 'spin_period': tagged('spin_period', 0)}
-        if spec.get('obliquity'):
+        init = {'orbital_period': tagged('orbital_period', 0), 'eccentricity': tagged('eccentricity', 0)}
+        if not SYNC:
+            init['spin_period'] = tagged('spin_period', 0)
+        if OBLIQ:
             init['obliquity'] = tagged('obliquity', 0)
+        if LAYERED:
+            t0 = tagged('temperature', 0)
+            w.mantle.set_state(temperature=t0)
+            final['temperature'] = ('temperature', t0)
         w.set_state(**init)
         for nm, v in init.items():
             final[GROUP.get(nm, nm)] = (nm, v)
         for k, op in enumerate(hist, start=1):
             kw = {nm: tagged(nm, k) for nm in op['kw']}
-            if op['via'] == 'world':
-                w.set_state(**kw)
-            elif op['via'] == 'orbit':
-                okw = {nm: v for nm, v in kw.items() if nm in ('eccentricity', 'semi_major_axis', 'orbital_frequency', 'orbital_period')}
-                wkw = {nm: v for nm, v in kw.items() if nm not in okw}
-                if okw:
-                    o.set_state(w, **okw)
-                if wkw:
-                    w.set_state(**wkw)
+            apply_op(w, o, op['via'], kw)
             for nm, v in kw.items():
                 final[GROUP.get(nm, nm)] = (nm, v)
         got = observe(w, o)
         w2, o2 = fresh_pair()
-        w2.set_state(**{nm: v for nm, v in final.values()})
+        if 'temperature' in final:
+            w2.mantle.set_state(temperature=final['temperature'][1])
+        for key in ('fixed_q', 'fixed_dt'):
+            if key in final:
+                apply_op(w2, o2, 'tides', {key: final[key][1]})
+        w2.set_state(**{nm: v for g, (nm, v) in final.items() if nm in WORLD_KEYS and nm != 'time'})
+        if 'time' in final:
+            o2.time = final['time'][1]
         want = observe(w2, o2)
-        results.append({'history': hist, 'hist': got, 'fresh': want, 'final': {g: nm for g, (nm, v) in final.items()}})
+        func = functional(w2, final)
+        results.append({'history': hist, 'hist': got, 'fresh': want, 'functional': func, 'final': {g: nm for g, (nm, v) in final.items()}})
     except Exception as e:
         import traceback
-        results.append({'history': hist, 'error': repr(e)[:300], 'trace': traceback.format_exc()[-600:]})
+        results.append({'history': hist, 'error': repr(e)[:300], 'trace': traceback.format_exc()[-900:]})
 print('\n@@RESULT@@' + json.dumps(results))
